@@ -250,6 +250,14 @@ class SimRLock:
         self.release()
 
 
+def _through_pickle(x):
+    import pickle
+    try:
+        return pickle.loads(pickle.dumps(x))
+    except Exception:       # noqa - an object the harness cannot copy is passed as it is (the real queue would have raised later)
+        return x
+
+
 PIPE_CAP = [0]       # 0 = unbounded; k = a multiprocessing.Queue's pipe holds k items (models results larger than the pipe buffer)
 
 
@@ -258,7 +266,12 @@ class SimQueue:
     thing: put() hands the item to the producer's feeder, which moves it into the pipe when there is room; the item
     becomes visible to get() only then, and the producer process cannot exit while its feeder still holds items."""
 
-    def __init__(self, maxsize=0, piped=False):
+    def __init__(self, maxsize=0, piped=False, copies=None, simple=False):
+        # multiprocessing.SimpleQueue has no feeder thread: put() itself writes into the pipe and blocks while the pipe is full
+        self.simple = simple
+        # queues that cross process boundaries (manager / multiprocessing queues) deliver a pickled copy: the receiver never gets
+        # the sender's object (identity is lost, later changes of the sender's object are not seen)
+        self.copies = piped if copies is None else copies
         self.items = []
         self.maxsize = maxsize or 0
         self.name = W.fresh("q") if W else "q?"
@@ -278,13 +291,21 @@ class SimQueue:
         return self.maxsize > 0 and len(self.items) + len(self.held) >= self.maxsize
 
     def _add(self, x):
-        if self.pipe_cap:
+        if self.copies:
+            x = _through_pickle(x)
+        if self.pipe_cap and not self.simple:
             self.held.append((W.cur, x))
             self._pump()
         else:
             self.items.append(x)
 
     def put(self, x, block=True, timeout=None):
+        if self.simple and self.pipe_cap:
+            # SimpleQueue.put() writes into the pipe itself: the bytes become readable at once, but the call returns only when
+            # they fit - with items as large as the pipe (PIPE_CAP = 1) only when the reader has taken them
+            vop("q.put", self, _always, lambda: self._add(x), _tag(x))
+            vop("q.put_done", self, lambda: len(self.items) <= self.pipe_cap - 1, lambda: None)
+            return
         if block and timeout is None:
             vop("q.put", self, lambda: not self._full(), lambda: self._add(x), _tag(x))
             return
@@ -587,7 +608,7 @@ class SimManager:
         self.name = W.fresh("mgr") if W else "mgr?"
 
     def Queue(self, maxsize=0):
-        return SimQueue(maxsize)
+        return SimQueue(maxsize, copies=True)
 
     def list(self, init=()):
         return SimList(init)
@@ -625,7 +646,7 @@ class SimContext:
         return SimQueue(maxsize, piped=True)
 
     def SimpleQueue(self):
-        return SimQueue(0, piped=True)
+        return SimQueue(0, piped=True, simple=True)
 
     def Lock(self):
         return SimLock()
@@ -761,7 +782,7 @@ def make_shims():
     mp.get_context = lambda *a: ctx
     mp.cpu_count = lambda: CPU_COUNT[0]
     mp.Queue = lambda maxsize=0: SimQueue(maxsize, piped=True)
-    mp.SimpleQueue = lambda: SimQueue(0, piped=True)
+    mp.SimpleQueue = lambda: SimQueue(0, piped=True, simple=True)
     mp.Manager = SimManager
     mp.Value = SimValue
     mp.Lock = SimLock
